@@ -200,7 +200,7 @@ def _set_node_state(node, st):
     assert node.operating_state.name == st
 
 
-def live_tree(pi: int, mut: int, ns: int, svc_state: int, app_state: int, nic_en: bool, kind: str = "switched", node_name: str = "client_1", couple: bool = False):
+def live_tree(pi: int, mut: int, ns: int, svc_state: int, app_state: int, nic_en: bool, kind: str = "switched", node_name: str = "client_1", couple: bool = False, fstate: int = 0):
     """Every argument-free leaf path of the live tree (+ templates), optionally misspelt/truncated at position `mut`
     (mut = -1: unmodified; 0..len-1: misspell that element; 100+k: truncate to k elements)."""
     from primaite.simulator.system.applications.application import ApplicationOperatingState
@@ -228,7 +228,14 @@ def live_tree(pi: int, mut: int, ns: int, svc_state: int, app_state: int, nic_en
     mut = pick_int(mut, -1, 100 + L)
     assume(mut == -1 or 0 <= mut < L or 100 <= mut < 100 + L)
     st = pick(NODE_STATES, ns)
+    fs = ["live", "file_deleted", "folder_deleted"][fstate]
     with concrete():
+        # history: docs/a.txt, or the whole folder docs, was deleted earlier (the paths were listed before that, so
+        # they include the routes of the components that are gone now)
+        if fs == "file_deleted":
+            node.file_system.delete_file(folder_name="docs", file_name="a.txt")
+        elif fs == "folder_deleted":
+            node.file_system.delete_folder(folder_name="docs")
         _set_node_state(node, st)
     sv = pick(SS, svc_state)
     av = pick(AS, app_state)
@@ -239,6 +246,13 @@ def live_tree(pi: int, mut: int, ns: int, svc_state: int, app_state: int, nic_en
     if st == "ON":
         node.network_interface[1].enabled = nic_en
     request = list(path) + list(args)
+    tail = tuple(request[3:])
+    gone = False
+    if "docs" in tail and "create" not in tail:
+        if fs == "folder_deleted" and tail[:3] != ("file_system", "restore", "folder") and tail != ("file_system", "folder", "docs", "restore"):
+            gone = True
+        if fs == "file_deleted" and "a.txt" in tail and tail[:3] != ("file_system", "restore", "file") and tail[-1] != "restore":
+            gone = True
     mutated = False
     if 0 <= mut < L:
         request[mut] = "no_such_" + str(request[mut])
@@ -273,9 +287,16 @@ def live_tree(pi: int, mut: int, ns: int, svc_state: int, app_state: int, nic_en
     else:
         cover("reached")
         check(resp.status != "unreachable", f"request {request} reached its handler but answered unreachable")
+    if gone and not mutated:
+        cover("deleted_target")
+        what = "file" if fs == "file_deleted" else "folder"
+        check(resp.status != "success", lambda: f"request {request} addresses a deleted {what} but answered success (node {st})")
+        with concrete():
+            after = snap(sim)
+        check(before == after, lambda: f"request {request} addresses a deleted {what} but changed the simulation state (answer {resp.status})")
 
 
-def actions_reach(ai: int, ns: int, svc_state: int, app_state: int, nic_en: bool, kind: str = "switched", couple: bool = False):
+def actions_reach(ai: int, ns: int, svc_state: int, app_state: int, nic_en: bool, kind: str = "switched", couple: bool = False, fstate: int = 0):
     """Agent actions naming existing components are never 'unreachable' (whatever the power/software state); actions
     naming missing components never reach a handler."""
     from primaite.simulator.system.applications.application import ApplicationOperatingState
@@ -298,7 +319,13 @@ def actions_reach(ai: int, ns: int, svc_state: int, app_state: int, nic_en: bool
     ai = pick_int(ai, 0, n_actions - 1)
     name, opts = amap[ai]
     st = pick(NODE_STATES, ns)
+    fs = ["live", "file_deleted", "folder_deleted"][fstate]
     with concrete():
+        # history: the file docs/a.txt, or the whole folder docs, was deleted earlier in the episode (real API)
+        if fs == "file_deleted":
+            node.file_system.delete_file(folder_name="docs", file_name="a.txt")
+        elif fs == "folder_deleted":
+            node.file_system.delete_folder(folder_name="docs")
         _set_node_state(node, st)
     sv = pick(SS, svc_state)
     av = pick(AS, app_state)
@@ -312,6 +339,28 @@ def actions_reach(ai: int, ns: int, svc_state: int, app_state: int, nic_en: bool
         request = agent.action_manager.form_request(action_identifier=name, action_options=opts)
     except Exception as e:
         fail(f"form_request({name}) raised {type(e).__name__}: {e}")
+    # a deleted file / a file or folder inside a deleted folder no longer exists: only the restore of exactly the
+    # deleted item (and creation) addresses something that is there
+    gone = False
+    if opts.get("folder_name") == "docs" and "create" not in name:
+        if fs == "folder_deleted" and name != "node-folder-restore":
+            gone = True
+        if fs == "file_deleted" and opts.get("file_name") == "a.txt" and name != "node-file-restore":
+            gone = True
+    if gone:
+        cover("deleted_target")
+        with concrete():
+            before = snap(sim)
+        try:
+            resp = sim.apply_request(request)
+        except Exception as e:
+            fail(f"action {name} {opts}: apply_request({request}) raised {type(e).__name__}: {e}")
+        check(resp is not None and resp.status in STATUSES, f"action {name}: undocumented status")
+        check(resp.status != "success", lambda: f"action {name} {opts} addresses a deleted {'file' if fs == 'file_deleted' else 'folder'} but answered success (node {st})")
+        with concrete():
+            after = snap(sim)
+        check(before == after, lambda: f"action {name} {opts} on a deleted {'file' if fs == 'file_deleted' else 'folder'} changed the state (answer {resp.status})")
+        return
     missing = any(str(v).startswith("no") and ("such" in str(v) or str(v) in ("nofolder", "nofile")) for v in opts.values()) or opts.get("nic_num") in (7, 0)
     with concrete():
         before = snap(sim)
@@ -358,9 +407,11 @@ HARNESSES = {
     "live_tree": {
         "fn": live_tree,
         "quick": [{"fixed": {"kind": "switched", "ns": n, "mut": m, "couple": True}, "timeout": 280} for n in (0, 2) for m in (-1, 3, 4, 103)]
-        + [{"fixed": {"kind": "switched", "ns": 0, "mut": m, "svc_state": 0, "app_state": 0}, "timeout": 280} for m in (104, 105, 106, 107)],
-        "thorough": [{"fixed": {"kind": k, "ns": n}, "timeout": 1500} for k in ("switched", "routed") for n in range(4)],
-        "cover": ["reached", "not_reached"],
+        + [{"fixed": {"kind": "switched", "ns": 0, "mut": m, "svc_state": 0, "app_state": 0}, "timeout": 280} for m in (104, 105, 106, 107)]
+        + [{"fixed": {"kind": "switched", "ns": 0, "mut": -1, "svc_state": 0, "app_state": 0, "fstate": f}, "timeout": 280} for f in (1, 2)],
+        "thorough": [{"fixed": {"kind": k, "ns": n}, "timeout": 1500} for k in ("switched", "routed") for n in range(4)]
+        + [{"fixed": {"kind": "switched", "ns": n, "couple": True, "fstate": f}, "timeout": 1500} for n in (0, 2) for f in (1, 2)],
+        "cover": ["reached", "not_reached", "deleted_target"],
         "bounds": {
             "quick": "all argument-free/templated leaf paths of client_1; node ON/OFF; unmodified, misspelt at depth 3/4, truncated to 3..7 elements; all service and application states",
             "thorough": "both topologies, all 4 power states, every mutation position and truncation length",
@@ -368,9 +419,11 @@ HARNESSES = {
     },
     "actions_reach": {
         "fn": actions_reach,
-        "quick": [{"fixed": {"kind": "switched", "ns": n, "couple": True}, "timeout": 280} for n in range(4)],
-        "thorough": [{"fixed": {"kind": k, "ns": n}, "timeout": 1200} for k in ("switched", "routed") for n in range(4)],
-        "cover": ["missing_target", "existing_target"],
-        "bounds": "every entry of the generated action map (54 host actions incl. 7 naming missing components; +12 router/ACL actions in the routed topology) x 4 power states x all service/application states",
+        "quick": [{"fixed": {"kind": "switched", "ns": n, "couple": True}, "timeout": 280} for n in range(4)]
+        + [{"fixed": {"kind": "switched", "ns": 0, "svc_state": 0, "app_state": 0, "fstate": f}, "timeout": 280} for f in (1, 2)],
+        "thorough": [{"fixed": {"kind": k, "ns": n}, "timeout": 1200} for k in ("switched", "routed") for n in range(4)]
+        + [{"fixed": {"kind": "switched", "ns": n, "couple": True, "fstate": f}, "timeout": 1200} for n in range(4) for f in (1, 2)],
+        "cover": ["missing_target", "existing_target", "deleted_target"],
+        "bounds": "every entry of the generated action map (54 host actions incl. 7 naming missing components; +12 router/ACL actions in the routed topology) x 4 power states x all service/application states; with docs/a.txt deleted and with the folder docs deleted earlier in the episode (node ON in the quick tier)",
     },
 }
